@@ -1232,7 +1232,17 @@ fn directed_gens() -> Vec<(String, Gen)> {
         v1: vec![vec![(3, Some(1))]],
         v2: vec![vec![(0, Some(2))], vec![(4, Some(3))], vec![(1, None)], vec![(2, Some(1))], vec![(5, Some(0))], vec![(0, Some(0))], vec![(3, Some(4))]],
     };
-    vec![("directed-truncate".to_string(), Gen { sc: truncate, plans: plans.clone(), sample_seed: 1 }), ("directed-state-growth".to_string(), Gen { sc: state_growth, plans, sample_seed: 2 })]
+    // ten deltas of four changes each: more than MAX_POINTS kill points, so the sampling rule is exercised (thorough tier)
+    let mut long_v2: Vec<Delta> = Vec::new();
+    for i in 0..10u8 {
+        long_v2.push(vec![(i % N_URIS, Some((i + 1) % N_SIZES)), ((i + 3) % N_URIS, Some((i + 4) % N_SIZES)), ((i + 5) % N_URIS, if i % 3 == 2 { None } else { Some(i % N_SIZES) }), ((i + 6) % N_URIS, Some((i + 2) % N_SIZES))]);
+    }
+    let long = Scenario { seed: 0x00c2_4003, kind: Kind::MultiDelta, etag: true, v0: vec![(0, 0), (1, 1), (2, 2), (3, 3), (4, 4), (5, 5)], v1: vec![vec![(6, Some(1)), (0, Some(2))]], v2: long_v2 };
+    vec![
+        ("directed-truncate".to_string(), Gen { sc: truncate, plans: plans.clone(), sample_seed: 1 }),
+        ("directed-state-growth".to_string(), Gen { sc: state_growth, plans: plans.clone(), sample_seed: 2 }),
+        ("directed-long".to_string(), Gen { sc: long, plans, sample_seed: 3 }),
+    ]
 }
 
 struct Drive {
@@ -1415,7 +1425,7 @@ fn enumerate(ctx: &Ctx, rep: &mut Report, d: &mut Drive, name: &str, si: usize, 
 
 pub fn run(ctx: &Ctx, rep: &mut Report, replay: Option<&serde_json::Value>) {
     rep.level = "fault_enumeration".into();
-    rep.rule("per scenario (publisher history v0→v1→v2 over 8 URIs x 6 content sizes; generated kinds snapshot-only / single multi-element delta / 2-4 deltas / delta then new session, plus 2 hand-written multi-delta scenarios pinning end-of-file truncation, exact-fit reuse of freed blocks and re-allocation of the state record; pre-state = routinator's own copy at v1 made by snapshot + delta update) pass 0 traces the M kill points (verif::kill_point: every partial write of an archive object or index entry, truncation, finalize of the snapshot archive, remove/rename of the snapshot swap, deletion of a corrupt archive) of the client update v1→v2 performed by a child process; the child is re-run from a copy of the same pre-state and abort()ed at point k for every k in 0..=M (M > 400: first/last 20, every label change, seeded sample), each k with 2 follow-up plans (quick: 1 for the generated scenarios) of 1-3 further in-process updates against the honest server (same version / more deltas / deltas withheld / new session; earlier updates optionally meet notification 500/cut, snapshot 500/cut, first delta 404, last delta cut, delta+snapshot failing; ETag with truthful 304 in about half of the scenarios); second-crash pass: for the first kill point of each class of copy left behind (quick: 2 classes of each hand-written scenario; thorough: all classes of the hand-written and of 3 generated scenarios per kind) a second victim update is traced and killed at every one of its points, followed by one plan; oracle on every update that hands out an RRDP repository: archive objects (routinator's reader on a copy of the file) == server objects at the notified session+serial byte for byte, state record names them, load_object agrees for all 8 URIs; Ok(None)/failed run = not updated; non-trivial = killed at an archive.storage.* point of a delta-path update that had fetched >= 1 delta, the copy left behind still carries the v1 state record and its objects differ from v1 (or are unreadable); distinct by (scenario, k, k2, follow-up plan)");
+    rep.rule("per scenario (publisher history v0→v1→v2 over 8 URIs x 6 content sizes; generated kinds snapshot-only / single multi-element delta / 2-4 deltas / delta then new session, plus hand-written multi-delta scenarios pinning end-of-file truncation, exact-fit reuse of freed blocks and re-allocation of the state record (thorough: also a ten-delta one with M > 400); pre-state = routinator's own copy at v1 made by snapshot + delta update) pass 0 traces the M kill points (verif::kill_point: every partial write of an archive object or index entry, truncation, finalize of the snapshot archive, remove/rename of the snapshot swap, deletion of a corrupt archive) of the client update v1→v2 performed by a child process; the child is re-run from a copy of the same pre-state and abort()ed at point k for every k in 0..=M (M > 400: first/last 20, every label change, seeded sample), each k with 2 follow-up plans (quick: 1 for the generated scenarios) of 1-3 further in-process updates against the honest server (same version / more deltas / deltas withheld / new session; earlier updates optionally meet notification 500/cut, snapshot 500/cut, first delta 404, last delta cut, delta+snapshot failing; ETag with truthful 304 in about half of the scenarios); second-crash pass: for the first kill point of each class of copy left behind (quick: 2 classes of each hand-written scenario; thorough: all classes of the hand-written and of 3 generated scenarios per kind) a second victim update is traced and killed at every one of its points, followed by one plan; oracle on every update that hands out an RRDP repository: archive objects (routinator's reader on a copy of the file) == server objects at the notified session+serial byte for byte, state record names them, load_object agrees for all 8 URIs; Ok(None)/failed run = not updated; non-trivial = killed at an archive.storage.* point of a delta-path update that had fetched >= 1 delta, the copy left behind still carries the v1 state record and its objects differ from v1 (or are unreadable); distinct by (scenario, k, k2, follow-up plan)");
     rep.assume("abort() at a hook point stands for SIGKILL: writes already issued (incl. stores into the MAP_SHARED mapping) survive in the page cache, nothing else does; power-loss reordering / lost page-cache contents are out of scope; kill points have the granularity of routinator's own write calls (one header field, name, meta, data, padding per call), a kill inside one memcpy is not modelled");
     rep.assume("the publisher model (httpsrv::RrdpServer) renders RFC 8182 files as rpki::rrdp parses them and is honest after the crash: serials only grow within a session, 304 only for the ETag of the notification currently served, every served file matches its listed hash; transient faults are plain HTTP errors or cut connections");
     rep.assume("'not updated' is observed as Run::repository == Ok(None) (rsync disabled) or a failed run; the statement has no liveness clause, so updates that stay unsuccessful are counted (classes run:clean-follow-up-*) but are not violations; Archive::verify failing on a copy whose content is correct is counted, not judged");
@@ -1428,9 +1438,15 @@ pub fn run(ctx: &Ctx, rep: &mut Report, replay: Option<&serde_json::Value>) {
     let mut d = Drive { workers: 12, all_points: true, scen_meta: Vec::new(), label_hist: BTreeMap::new(), reported: BTreeSet::new() };
     let mut go = true;
     // hand-written scenarios first: the first one also carries the second-crash pass of the quick tier and the related probe
+    // RV_C24_ONLY=<scenario name> restricts a run to one scenario (debugging aid; evidence then covers only that one)
+    let only = std::env::var("RV_C24_ONLY").ok();
+    let wanted = |name: &str| only.as_deref().map(|o| o == name).unwrap_or(true);
     for (i, (name, g)) in directed_gens().iter().enumerate() {
         if !go {
             break;
+        }
+        if !wanted(name) || (name == "directed-long" && ctx.tier == Tier::Quick && only.is_none()) {
+            continue;
         }
         let second: &[&str] = match (ctx.tier, i) {
             (Tier::Quick, 0) => &["partly-changed-under-v1-state", "v2-complete"],
@@ -1446,6 +1462,9 @@ pub fn run(ctx: &Ctx, rep: &mut Report, replay: Option<&serde_json::Value>) {
         let gens = sample_strategy(&gen_strategy(kind), ctx.seed_for(&format!("scenarios/{}", kind.name())), per_kind);
         for (si, g) in gens.iter().enumerate() {
             let second: &[&str] = if ctx.tier == Tier::Thorough && si < 3 { &SECOND_ALL } else { &[] };
+            if !wanted(&format!("generated-{}-{}", kind.name(), si)) {
+                continue;
+            }
             if !enumerate(ctx, rep, &mut d, &format!("generated-{}-{}", kind.name(), si), si, g, ctx.tier.pick(1, 2), second, false) {
                 break 'outer;
             }
